@@ -102,7 +102,9 @@ def _configs(op, da, db, k_total, salt=""):
                                          (("jagged", "flat", "optlist")[h % 3], "object", "dtype_a"))):
             out.append({"op": op.name, "da": da, "db": db, "ka": ka, "kb": kb, "sa": R.sysname(SA[(h >> (4 + j)) % len(SA)]),
                         "sb": R.sysname(SB[(h >> (9 + j)) % len(SB)]), "fa": "gm"[(h >> 2) % 2], "fb": "gm"[(h >> 3) % 2],
-                        "extra": False, "alt": 0, "spa": "generic", "spb": "generic", "scal": "py", w: "i64", "ints": True})
+                        "extra": False, "alt": (h >> 5) % 3, "spa": "generic", "scal": "py", w: "i64", "ints": True,
+                        # (a momentum Awkward operand carries its fields under the momentum names: px ... E/e/energy, mass/M/m)
+                        "spb": "momentum" if ((h >> 3) % 2 and kb != "object") else "generic"})
     return out
 
 
